@@ -110,7 +110,28 @@ def run_errrun(ctx, rep, rid="R-C04-errrun"):
             if labs != ["Err"]:
                 continue
             n += 1
-            region = b.reachable(succ, avoid=tuple(h.bb for h in heads))
+            # what runs for an error: later tests of the same value (`matches!(token, .. | Err(_))` before the `match token`) take their Err
+            # edge too - the other edges are not ways an error can go
+            def subject_key(si_):
+                sj = si_["subject"]
+                if sj[0] == "place":
+                    return ("p", sj[1][0], repr([x for x in sj[1][1] if x != "*"]))
+                if sj[0] == "call":
+                    return ("c", sj[1].bb, repr([x for x in sj[2] if x != "*"]))
+                return None
+            key0 = subject_key(si)
+            avoid_h = {h.bb for h in heads}
+            region, st_ = set(), [succ]
+            while st_:
+                x = st_.pop()
+                if x in region or x in avoid_h:
+                    continue
+                region.add(x)
+                sx = switch_info(b, x)
+                if sx and sx["kind"] == "disc" and sx.get("adt") == "core::result::Result" and key0 is not None and subject_key(sx) == key0:
+                    st_.extend(s2 for s2, l2 in sx["edges"].items() if l2 == ["Err"])
+                else:
+                    st_.extend(b.succ(x))
             pushes = []
             for c in b.calls():
                 if c.bb in region and (c.callee or "").endswith("Vec::push") and c.args:
